@@ -418,8 +418,10 @@ Proof.
   assert (Es : c_stack s = []) by (destruct (c_stack s) eqn:E; [reflexivity|pose proof (i_len _ _ _ I) as L; rewrite E, Hk in L; discriminate]).
   pose proof (rel_nil_stack _ _ _ _ _ R Es) as Evs. subst vs.
   destruct f as [|f2]; [cbn; exact Logic.I|]. rewrite E_block.
-  change (sim_res rho M s' (match blk (exec_seq f2 st l [] body) with
-                            | RNormal s1 l1 st1 => exec_seq (S f2) s1 l1 st1 rest | r => r end)).
+  match goal with |- sim_res _ _ _ ?rr =>
+    replace rr with (match blk (exec_seq f2 st l [] body) with
+                    | RNormal s1 l1 st1 => exec_seq (S f2) s1 l1 st1 rest | r0 => r0 end)
+      by (destruct (exec_seq f2 st l [] body) as [? ? ?|[|?] ? ? ?| | | |]; reflexivity) end.
   (* facts about the intermediate states *)
   assert (Mc : matches F sc) by (eapply matches_ext; [apply (p_ext _ _ _ _ Pr)|exact Hm]).
   assert (Mb : matches F sb) by (eapply matches_ext; [exact X3|exact Mc]).
@@ -446,4 +448,277 @@ Proof.
     + left. exact E7.
     + eapply lows_mono; [exact Hlo|]. rewrite E8. lia.
 Qed.
+
+Lemma bp_sub_head L bp0 locs bp1 :
+  bp_sub (JUnknown [L] None :: bp0) (JUnknown locs None :: bp1) -> exists add, locs = L :: add.
+Proof.
+  intros H. inversion H as [|? ? ? ? (l0 & add & E1 & E2)]; subst. inversion E1; subst. inversion E2; subst.
+  exists add. reflexivity.
+Qed.
+
+Lemma case_if f bt thn els rest s v v' s' rho st l vs M :
+  (f <= n)%nat ->
+  compile_ops cx (flatten (If bt thn els :: rest)) v s = Some (v', s') ->
+  lvl nl cx (flatten (If bt thn els :: rest)) v = true ->
+  inv nl s v -> v_unreach v = None ->
+  matches F s' -> lenv s' rho -> lows rho s -> small NR s' -> consts_ok consts s' ->
+  rel s st l vs M ->
+  sim_res rho M s' (match exec_instr f st l vs (If bt thn els) with
+                    | RNormal s1 l1 st1 => exec_seq f s1 l1 st1 rest | r => r end).
+Proof.
+  intros Hf Hc Hl I Hu Hm Hle Hlo Sm Co R.
+  destruct els as [|e els].
+  - (* one-armed *)
+    rewrite flatten_if1 in Hc, Hl.
+    destruct (compile_cons _ _ _ _ _ _ _ Hc) as (va & sa & Ev & Eh & Hc').
+    rewrite (reach_of_none v Hu) in Eh. destruct (lvl_cons _ _ _ _ _ _ Hl Ev) as [Hk Hl'].
+    destruct bt; [discriminate|]. unfold ctl_ok in Hk. rewrite Hu in Hk. apply Nat.eqb_eq in Hk.
+    destruct (op_if nl cx s v va sa I Hu Hk Ev Eh) as (p & Es & Pp & A1 & A2 & A3 & A4 & A5 & A6 & Ia & Hua & Xa).
+    destruct (compile_app_inv _ _ _ _ _ _ _ Hc') as (vb & sb & Hcb & Hc'').
+    rewrite (lvl_app nl cx _ _ _ _ _ _ Hcb) in Hl'. apply andb_true_iff in Hl'. destruct Hl' as [Hlb Hl''].
+    assert (Pb : pres nl sa sb vb) by (eapply (pres_of thn); eauto; left; exact A6).
+    destruct (compile_cons _ _ _ _ _ _ _ Hc'') as (vc & sc & Evc & Ehc & Hcr).
+    destruct (lvl_cons _ _ _ _ _ _ Hl'' Evc) as [_ Hlr].
+    destruct (op_end nl cx sb vb vc sc (p_inv _ _ _ _ Pb) Evc Ehc) as (locs & bp' & E1 & E2 & E3 & E4 & E5 & E6 & E7 & E8 & X3 & Rs & Ic & Huc).
+    assert (Pr : pres nl sc s' v') by (eapply (pres_of rest); eauto; left; exact E7).
+    assert (Mc : matches F sc) by (eapply matches_ext; [apply (p_ext _ _ _ _ Pr)|exact Hm]).
+    assert (Mb : matches F sb) by (eapply matches_ext; [exact X3|exact Mc]).
+    assert (Ma : matches F sa) by (eapply matches_ext; [apply (p_ext _ _ _ _ Pb)|exact Mb]).
+    assert (Moc : mono sc s') by apply (p_mono _ _ _ _ Pr).
+    assert (Mob : mono sb s') by (eapply mono_trans; [apply (mono_eq sb sc); auto|exact Moc]).
+    assert (Moa : mono sa s') by (eapply mono_trans; [apply (p_mono _ _ _ _ Pb)|exact Mob]).
+    assert (Lc : lenv sc rho) by (eapply lenv_sub; [reflexivity|apply (p_bp _ _ _ _ Pr)|exact Hle]).
+    assert (Ebp : c_bp sb = JUnknown locs None :: c_bp sc) by (rewrite E1, E2; reflexivity).
+    assert (Lb : lenv sb ((cur_off sb, 0) :: rho)) by (eapply lenv_end; eauto).
+    assert (Oa : cur_off s <= cur_off sa) by (apply ext_off; exact Xa).
+    assert (Ob : cur_off sa <= cur_off sb) by (apply ext_off; apply (p_ext _ _ _ _ Pb)).
+    assert (Sa : small NR sa) by (eapply small_of_mono; eauto).
+    destruct vs as [|x vs]; [pose proof (r_stack _ _ _ _ _ _ _ _ _ _ _ R) as Hst; rewrite Es in Hst; inversion Hst|].
+    destruct (sim_if s v va sa st l x vs M I Hu Hk Ev Eh Ma Sa R) as [-> Hstep].
+    destruct f as [|f2]; [cbn; exact Logic.I|].
+    destruct x as [cv|cv]; [|cbn; exact Logic.I].
+    rewrite E_if. destruct f2 as [|f3]; [cbn; exact Logic.I|]. rewrite E_block.
+    destruct (Hstep cv eq_refl) as (M1 & Hn1 & Fq1 & Hcase).
+    eapply sim_res_compose; [exact Hn1|exact Fq1|].
+    match goal with |- sim_res _ _ _ ?rr =>
+      replace rr with (match blk (exec_seq f3 st l [] (if cv =? 0 then [] else thn)) with
+                      | RNormal s1 l1 st1 => exec_seq (S (S f3)) s1 l1 st1 rest | r0 => r0 end)
+        by (destruct (exec_seq f3 st l [] (if cv =? 0 then [] else thn)) as [? ? ?|[|?] ? ? ?| | | |]; reflexivity) end.
+    assert (HL : In (cur_off s + 5) locs).
+    { pose proof (p_bp _ _ _ _ Pb) as Hb. rewrite A2, E1 in Hb. destruct (bp_sub_head _ _ _ _ Hb) as (add & ->). left. reflexivity. }
+    assert (Hrest : forall st1 l1 M2, rel sc st1 l1 [] M2 -> sim_res rho M2 s' (exec_seq (S (S f3)) st1 l1 [] rest)).
+    { intros st1 l1 M2 R2. eapply (Hsim (S (S f3)) Hf rest sc vc v' s'); eauto.
+      - left. exact E7.
+      - eapply lows_mono; [exact Hlo|]. rewrite E8. lia. }
+    destruct (cv =? 0).
+    + destruct f3 as [|f4]; [cbn; exact Logic.I|]. rewrite E_nil. cbn [blk arity firstn app].
+      apply Hrest. apply Hcase; [exact E4|].
+      rewrite (target_from_F sc _ (cur_off sb) (Rs _ HL) Mc); [exact E8|]. rewrite <- E8. apply T_range. exact Mc.
+    + eapply (sim_after_body (S (S f3)) rho (cur_off sb) 0 sb sc s').
+      * eapply (Hsim f3 ltac:(lia) thn sa va vb sb); eauto.
+        -- left. exact A6.
+        -- apply (lows_cons _ _ _ s); auto; try lia. unfold cur_off. lia.
+        -- eapply small_of_mono; [exact Sm|exact Mob].
+        -- eapply consts_ok_of_mono; [exact Co|exact Mob].
+      * exact E3.
+      * exact E4.
+      * exact E8.
+      * intros st1 l1 M2 R2. exists O, M2. split; [reflexivity|]. split; [apply frame_eq_refl|].
+        eapply rel_transfer; [exact R2|rewrite E3, E4; reflexivity|exact E8].
+      * exact Hrest.
+  - (* two-armed *)
+    rewrite flatten_if2 in Hc, Hl.
+    destruct (compile_cons _ _ _ _ _ _ _ Hc) as (va & sa & Ev & Eh & Hc').
+    rewrite (reach_of_none v Hu) in Eh. destruct (lvl_cons _ _ _ _ _ _ Hl Ev) as [Hk Hl'].
+    destruct bt; [discriminate|]. unfold ctl_ok in Hk. rewrite Hu in Hk. apply Nat.eqb_eq in Hk.
+    destruct (op_if nl cx s v va sa I Hu Hk Ev Eh) as (p & Es & Pp & A1 & A2 & A3 & A4 & A5 & A6 & Ia & Hua & Xa).
+    destruct (compile_app_inv _ _ _ _ _ _ _ Hc') as (vb & sb & Hcb & Hc'').
+    rewrite (lvl_app nl cx _ _ _ _ _ _ Hcb) in Hl'. apply andb_true_iff in Hl'. destruct Hl' as [Hlb Hl''].
+    assert (Pb : pres nl sa sb vb) by (eapply (pres_of thn); eauto; left; exact A6).
+    destruct (compile_cons _ _ _ _ _ _ _ Hc'') as (vc & sc & Evc & Ehc & Hcr).
+    destruct (lvl_cons _ _ _ _ _ _ Hl'' Evc) as [_ Hlr].
+    destruct (op_else nl cx sb vb vc sc (p_inv _ _ _ _ Pb) Evc Ehc)
+      as (first & more & bp' & pre & E1 & E2 & Lp & E3 & E4 & E5 & E6 & E7 & E8 & X3 & Rs & Ic & Huc).
+    destruct (compile_app_inv _ _ _ _ _ _ _ Hcr) as (vd & sd & Hcd & Hcr').
+    rewrite (lvl_app nl cx _ _ _ _ _ _ Hcd) in Hlr. apply andb_true_iff in Hlr. destruct Hlr as [Hld Hlr'].
+    assert (Pd : pres nl sc sd vd) by (eapply (pres_of (e :: els)); eauto; left; exact E8).
+    destruct (compile_cons _ _ _ _ _ _ _ Hcr') as (ve & se & Eve & Ehe & Hcr'').
+    destruct (lvl_cons _ _ _ _ _ _ Hlr' Eve) as [_ Hlr''].
+    destruct (op_end nl cx sd vd ve se (p_inv _ _ _ _ Pd) Eve Ehe) as (locs & bp'' & G1 & G2 & G3 & G4 & G5 & G6 & G7 & G8 & X5 & Rs' & Ie & Hue).
+    assert (Pr : pres nl se s' v') by (eapply (pres_of rest); eauto; left; exact G7).
+    assert (Me : matches F se) by (eapply matches_ext; [apply (p_ext _ _ _ _ Pr)|exact Hm]).
+    assert (Md : matches F sd) by (eapply matches_ext; [exact X5|exact Me]).
+    assert (Mc : matches F sc) by (eapply matches_ext; [apply (p_ext _ _ _ _ Pd)|exact Md]).
+    assert (Mb : matches F sb) by (eapply matches_ext; [exact X3|exact Mc]).
+    assert (Ma : matches F sa) by (eapply matches_ext; [apply (p_ext _ _ _ _ Pb)|exact Mb]).
+    assert (Moe : mono se s') by apply (p_mono _ _ _ _ Pr).
+    assert (Mod : mono sd s') by (eapply mono_trans; [apply (mono_eq sd se); auto|exact Moe]).
+    assert (Moc : mono sc s') by (eapply mono_trans; [apply (p_mono _ _ _ _ Pd)|exact Mod]).
+    assert (Mob : mono sb s') by (eapply mono_trans; [apply (mono_eq sb sc); auto|exact Moc]).
+    assert (Moa : mono sa s') by (eapply mono_trans; [apply (p_mono _ _ _ _ Pb)|exact Mob]).
+    assert (Le : lenv se rho) by (eapply lenv_sub; [reflexivity|apply (p_bp _ _ _ _ Pr)|exact Hle]).
+    assert (Ebp : c_bp sd = JUnknown locs None :: c_bp se) by (rewrite G1, G2; reflexivity).
+    assert (Ld : lenv sd ((cur_off sd, 0) :: rho)) by (eapply lenv_end; eauto).
+    assert (Lc : lenv sc ((cur_off sd, 0) :: rho)) by (eapply lenv_sub; [reflexivity|apply (p_bp _ _ _ _ Pd)|exact Ld]).
+    assert (Oa : cur_off s <= cur_off sa) by (apply ext_off; exact Xa).
+    assert (Oa9 : cur_off sa = cur_off s + 9).
+    { unfold cur_off. rewrite A1, app_length. cbn [length]. rewrite app_length, i32_bytes_length, u32_bytes_length. lia. }
+    assert (Ob : cur_off sa <= cur_off sb) by (apply ext_off; apply (p_ext _ _ _ _ Pb)).
+    assert (Oc : cur_off sc = cur_off sb + 5).
+    { unfold cur_off. rewrite E3, app_length, Lp. cbn [length]. rewrite u32_bytes_length. lia. }
+    assert (Od : cur_off sc <= cur_off sd) by (apply ext_off; apply (p_ext _ _ _ _ Pd)).
+    assert (Sa : small NR sa) by (eapply small_of_mono; eauto).
+    assert (Hfirst : first = cur_off s + 5).
+    { pose proof (p_bp _ _ _ _ Pb) as Hb. rewrite A2, E1 in Hb. destruct (bp_sub_head _ _ _ _ Hb) as (add & Ea). inversion Ea. reflexivity. }
+    subst first.
+    assert (Lb : lenv sb ((cur_off sd, cur_off sa) :: rho)).
+    { unfold lenv in Lc |- *. rewrite E2 in Lc. rewrite E1. inversion Lc as [|? ? ? ? (l2 & El2 & Hl2) Htl]; subst.
+      constructor; [|exact Htl]. exists ((cur_off s + 5) :: more). split; [reflexivity|]. cbn [fst snd] in *. intros loc Hin Hge.
+      inversion El2; subst l2. apply Hl2; [|unfold cur_off in *; lia].
+      destruct Hin as [<-|Hin]; [lia|apply in_or_app; left; exact Hin]. }
+    destruct vs as [|x vs]; [pose proof (r_stack _ _ _ _ _ _ _ _ _ _ _ R) as Hst; rewrite Es in Hst; inversion Hst|].
+    destruct (sim_if s v va sa st l x vs M I Hu Hk Ev Eh Ma Sa R) as [-> Hstep].
+    destruct f as [|f2]; [cbn; exact Logic.I|].
+    destruct x as [cv|cv]; [|cbn; exact Logic.I].
+    rewrite E_if. destruct f2 as [|f3]; [cbn; exact Logic.I|]. rewrite E_block.
+    destruct (Hstep cv eq_refl) as (M1 & Hn1 & Fq1 & Hcase).
+    eapply sim_res_compose; [exact Hn1|exact Fq1|].
+    match goal with |- sim_res _ _ _ ?rr =>
+      replace rr with (match blk (exec_seq f3 st l [] (if cv =? 0 then e :: els else thn)) with
+                      | RNormal s1 l1 st1 => exec_seq (S (S f3)) s1 l1 st1 rest | r0 => r0 end)
+        by (destruct (exec_seq f3 st l [] (if cv =? 0 then e :: els else thn)) as [? ? ?|[|?] ? ? ?| | | |]; reflexivity) end.
+    assert (Hrest : forall st1 l1 M2, rel se st1 l1 [] M2 -> sim_res rho M2 s' (exec_seq (S (S f3)) st1 l1 [] rest)).
+    { intros st1 l1 M2 R2. eapply (Hsim (S (S f3)) Hf rest se ve v' s'); eauto.
+      - left. exact G7.
+      - eapply lows_mono; [exact Hlo|]. rewrite G8. lia. }
+    destruct (cv =? 0).
+    + (* else branch *)
+      assert (Rc : rel sc st l [] M1).
+      { apply Hcase; [exact E5|].
+        rewrite (target_from_F sc (cur_off s + 5) (cur_off sb + 5) Rs Mc); [exact Oc|]. rewrite <- Oc. apply T_range. exact Mc. }
+      eapply (sim_after_body (S (S f3)) rho (cur_off sd) 0 sd se s').
+      * eapply (Hsim f3 ltac:(lia) (e :: els) sc vc vd sd); eauto.
+        -- left. exact E8.
+        -- apply (lows_cons _ _ _ s); auto; try lia. unfold cur_off. lia.
+        -- eapply small_of_mono; [exact Sm|exact Mod].
+        -- eapply consts_ok_of_mono; [exact Co|exact Mod].
+      * exact G3.
+      * exact G4.
+      * exact G8.
+      * intros st1 l1 M2 R2. exists O, M2. split; [reflexivity|]. split; [apply frame_eq_refl|].
+        eapply rel_transfer; [exact R2|rewrite G3, G4; reflexivity|exact G8].
+      * exact Hrest.
+    + (* then branch, followed by the jump over the else branch *)
+      eapply (sim_after_body (S (S f3)) rho (cur_off sd) (cur_off sa) sb se s').
+      * eapply (Hsim f3 ltac:(lia) thn sa va vb sb); eauto.
+        -- left. exact A6.
+        -- apply (lows_cons _ _ _ s); auto; lia.
+        -- eapply small_of_mono; [exact Sm|exact Mob].
+        -- eapply consts_ok_of_mono; [exact Co|exact Mob].
+      * exact E4.
+      * exact G4.
+      * exact G8.
+      * intros st1 l1 M2 R2.
+        assert (Hcode1 : code_at c (cur_off sb) [IBr]).
+        { unfold cur_off. rewrite <- Lp. apply (code_from_F sc pre [IBr] (u32_bytes 0) Mc E3). intros j Hj. cbn in Hj.
+          rewrite Lp. apply (pres_pending_new sb sc (cur_off sb + 1)); [apply (i_bp _ _ _ (p_inv _ _ _ _ Pb))| |lia|unfold in_win, cur_off; lia].
+          intros y Hy. rewrite E2 in Hy. cbn [all_locs flat_map locs_of] in Hy. rewrite E1. cbn [all_locs flat_map locs_of].
+          rewrite <- app_assoc in Hy. apply in_app_iff in Hy. cbn in Hy. rewrite in_app_iff.
+          destruct Hy as [Hy|[Hy|Hy]]; auto. right. left. right. exact Hy. }
+        assert (Htgt : get_u32 c (cur_off sb + 1) = cur_off sd).
+        { unfold lenv in Lc. rewrite E2 in Lc. inversion Lc as [|? ? ? ? (l2 & El2 & Hl2) Htl]; subst. inversion El2; subst l2.
+          cbn [fst snd] in Hl2. apply Hl2; [apply in_or_app; right; left; reflexivity|unfold cur_off; lia]. }
+        exists 1%nat, (set_pc M2 (cur_off sd)). split.
+        -- cbn. rewrite (mstep_br2 M2 (r_idx _ _ _ _ _ _ _ _ _ _ _ R2)); rewrite (r_pc _ _ _ _ _ _ _ _ _ _ _ R2); [rewrite Htgt; reflexivity|exact Hcode1].
+        -- split; [apply frame_eq_set_pc|]. eapply rel_jump; [exact R2|exact G4|exact G8].
+      * exact Hrest.
+Qed.
 End Cases.
+
+Lemma seg_facts bs s v v1 s1 :
+  bs <> [] -> forallb straight_ok bs = true -> compile_ops cx (map OBasic bs) v s = Some (v1, s1) ->
+  lvl nl cx (map OBasic bs) v = true -> inv nl s v -> v_unreach v = None -> c_last s = None ->
+  inv nl s1 v1 /\ v_unreach v1 = None /\ c_bp s1 = c_bp s /\ mono s s1 /\ exists t, c_out s1 = c_out s ++ t.
+Proof.
+  intros Hne Hok Hc1 Hl1 I Hu Hlast.
+  destruct (seg_pure nl cx bs s v v1 s1 Hok Hc1 Hl1 Hu (i_cwf _ _ _ I)) as (Ebp & W1 & Ectrl & Hu1 & Hlen).
+  destruct (compile_grows cx (length bs) bs s v v1 s1 (le_n _) Hok Hc1 Hu (safe_last_none s bs Hlast)) as [(t & Eo) Mo].
+  assert (X1 : ext s s1) by (eapply ext_append; eauto).
+  splits; auto; [|exists t; exact Eo].
+  constructor; auto.
+  - eapply bpwf_same_locs; [apply (i_bp _ _ _ I)|rewrite Ebp; reflexivity|apply ext_off; exact X1].
+  - rewrite Ectrl, Ebp. apply (i_frames _ _ _ I).
+  - left. exact Hu1.
+Qed.
+
+Lemma sim_all : forall n fuel, (fuel <= n)%nat -> SIM fuel.
+Proof.
+  induction n as [|n IH]; intros fuel Hf.
+  { destruct fuel; [|lia]. unfold SIM. intros. cbn. exact Logic.I. }
+  assert (CF : forall fuel', (fuel' <= S n)%nat -> forall is s v v' s' rho st l vs M, ctl_first is ->
+            compile_ops cx (flatten is) v s = Some (v', s') -> lvl nl cx (flatten is) v = true ->
+            inv nl s v -> v_unreach v = None ->
+            matches F s' -> lenv s' rho -> lows rho s -> small NR s' -> consts_ok consts s' ->
+            rel s st l vs M -> sim_res rho M s' (exec_seq fuel' st l vs is)).
+  { intros fuel' Hf' is s v v' s' rho st l vs M Hcf Hc Hl I Hu Hm Hle Hlo Sm Co R.
+    destruct fuel' as [|f]; [cbn; exact Logic.I|].
+    destruct is as [|i rest].
+    - rewrite E_nil. cbn in Hc. inversion Hc; subst. cbn. exists O, M. split; [reflexivity|]. split; [exact R|apply frame_eq_refl].
+    - rewrite E_cons. destruct i as [b|bt body|bt body|bt thn els].
+      + cbn in Hcf. change (flatten (Basic b :: rest)) with (OBasic b :: flatten rest) in Hc, Hl.
+        destruct (compile_cons _ _ _ _ _ _ _ Hc) as (v1 & s1 & Ev & Eh & Hc').
+        rewrite (reach_of_none v Hu) in Eh. destruct (lvl_cons _ _ _ _ _ _ Hl Ev) as [Hk Hl'].
+        destruct b; try (unfold ctl_ok in Hk; rewrite Hu in Hk; rewrite Hcf in Hk; discriminate).
+        * (* br *)
+          destruct (op_br nl cx s v v1 s1 l0 I Hu Ev Eh) as (locs & Enth & O1 & O2 & O3 & O4 & O5 & O6 & I1 & Hu1 & X1).
+          rewrite (lvl_unreach_nil nl cx rest v1 Hu1 Hl') in Hc'. cbn in Hc'. inversion Hc'; subst v' s'.
+          destruct f as [|f2]; [cbn; exact Logic.I|]. rewrite E_br.
+          eapply sim_br; eauto.
+        * (* br_if *)
+          destruct (op_br_if nl cx s v v1 s1 l0 I Hu Ev Eh) as (p & st0 & locs & Es & Pp & Enth & O1 & O2 & O3 & O4 & O5 & O6 & I1 & Hu1 & X1).
+          assert (P2 : pres nl s1 s' v') by (eapply (pres_of rest); eauto; left; exact O6).
+          assert (M1' : matches F s1) by (eapply matches_ext; [apply (p_ext _ _ _ _ P2)|exact Hm]).
+          assert (L1 : lenv s1 rho) by (eapply lenv_sub; [reflexivity|apply (p_bp _ _ _ _ P2)|exact Hle]).
+          assert (S1 : small NR s1) by (eapply small_of_mono; [exact Sm|apply (p_mono _ _ _ _ P2)]).
+          destruct f as [|f2]; [cbn; exact Logic.I|].
+          destruct vs as [|[cv|cv] vs]; try (cbn; exact Logic.I). rewrite E_br_if.
+          destruct (sim_br_if l0 s v v1 s1 rho st l cv vs M I Hu Ev Eh M1' L1 Hlo S1 R) as (Mx & Hn & Fq & Hcase).
+          destruct (cv =? 0).
+          -- eapply sim_res_compose; [exact Hn|exact Fq|].
+             eapply (IH (S f2) ltac:(lia) rest s1 v1 v' s'); eauto.
+             ++ left. exact O6.
+             ++ eapply lows_mono; [exact Hlo|apply ext_off; exact X1].
+          -- destruct Hcase as (e & Ee & H0 & Re). cbn. exists e, 1%nat, Mx. auto.
+      + eapply (case_block n IH); eauto. lia.
+      + unfold flatten in Hl. cbn [flat_map flatten_instr app lvl ctl_ok] in Hl. discriminate.
+      + eapply (case_if n IH); eauto. lia. }
+  unfold SIM. intros is s v v' s' rho st l vs M Hc Hl I Hu Hr Hm Hle Hlo Sm Co R.
+  destruct (span is) as [bs tl] eqn:Esp. destruct (span_spec _ _ _ Esp) as (Eis & Hok & Hcf).
+  destruct bs as [|b0 bs0].
+  { cbn in Eis. subst is. apply CF; auto. }
+  assert (Hlast : c_last s = None).
+  { destruct Hr as [H|H]; auto. rewrite Eis in H. cbn in H. cbn [forallb] in Hok. rewrite H in Hok. discriminate. }
+  set (bs := b0 :: bs0) in *. rewrite Eis in Hc, Hl |- *. rewrite flatten_app, flatten_basics in Hc, Hl.
+  destruct (compile_app_inv _ _ _ _ _ _ _ Hc) as (v1 & s1 & Hc1 & Hc2).
+  rewrite (lvl_app nl cx _ _ _ _ _ _ Hc1) in Hl. apply andb_true_iff in Hl. destruct Hl as [Hl1 Hl2].
+  destruct (seg_facts bs s v v1 s1 ltac:(discriminate) Hok Hc1 Hl1 I Hu Hlast) as (I1 & Hu1 & Ebp & Mo & t & Eo).
+  assert (P2 : pres nl s1 s' v') by (eapply (pres_of tl); eauto; right; exact Hcf).
+  assert (M1' : matches F s1) by (eapply matches_ext; [apply (p_ext _ _ _ _ P2)|exact Hm]).
+  assert (S1 : small NR s1) by (eapply small_of_mono; [exact Sm|apply (p_mono _ _ _ _ P2)]).
+  assert (C1 : consts_ok consts s1) by (eapply consts_ok_of_mono; [exact Co|apply (p_mono _ _ _ _ P2)]).
+  assert (Hcode' : code_at c (cur_off s) t).
+  { apply (code_from_F s1 (c_out s) t [] M1'); [rewrite app_nil_r; exact Eo|].
+    intros j Hj. apply (pres_pending_new s s1 (-10)); [apply (i_bp _ _ _ I)| |lia|unfold in_win; lia].
+    intros y Hy. right. rewrite <- Ebp. exact Hy. }
+  pose proof (straight_main art mhost codes fidx c consts Hcode nl NR NR_small cap cx (length bs) bs s v v1 s1 st l vs M t
+                (le_n _) Hok Hc1 Hu (i_cwf _ _ _ I) S1 C1 (safe_last_none s bs Hlast) R Eo Hcode') as Hsr.
+  destruct (exec_prefix bs tl fuel st l vs Hok) as [E|E]; rewrite E; [cbn; exact Logic.I|].
+  unfold sim_result in Hsr. destruct (straight_sem cap bs st l vs) as [[|]|[[st1 l1] vs1]].
+  - exact Hsr.
+  - cbn. exact Logic.I.
+  - destruct Hsr as (W1 & n1 & M1 & Hn1 & R1 & Fq1).
+    eapply sim_res_compose; [exact Hn1|exact Fq1|].
+    apply (CF (fuel - length bs)%nat ltac:(lia) tl s1 v1 v' s'); auto.
+    eapply lows_mono; [exact Hlo|]. unfold cur_off. rewrite Eo, app_length. lia.
+Qed.
+End Sim.
